@@ -620,7 +620,7 @@ PATH_SETS = [
 ]
 
 
-def path_program(pkg, paths, consts=None, skip=(), ret_str=True):
+def path_program(pkg, paths, consts=None, skip=(), ret_str=True, aliases=()):
     p = gen.new_program(pkg)
     m = gen.add_module(p, "pm")
     main = None
@@ -635,6 +635,9 @@ def path_program(pkg, paths, consts=None, skip=(), ret_str=True):
         if i in skip:
             continue
         p["fns"][main]["stmts"].append(gen.s_keep(path, fids[i], [gen.lit(str(i))], path_style=["lit", "var", "pathlib"][i % 3]))
+    # the same call kept under a second path (same signature, two paths committed by one evaluation)
+    for (apath, i) in aliases:
+        p["fns"][main]["stmts"].append(gen.s_keep(apath, fids[i], [gen.lit(str(i))]))
     p["entry"] = main
     return p
 
@@ -658,6 +661,17 @@ def path_shape_cases(tier, seed):
             else:
                 hist = history_restart([0, 1, 2, 3, 0]) if k % 2 else history_same_process([0, 1, 2, 3, 0], "reload")
             cases.append(_case("pathshape%d|%s" % (PATH_SETS.index(paths), store), versions, descs, hist, store))
+    # twins: one call kept under its path and under alias paths that appear over time
+    for pi, paths in enumerate(PATH_SETS[:2]):
+        for store in stores:
+            pkg = "pt%d" % k
+            k += 1
+            al1 = [("/alias/of0", 0)]
+            al2 = [("/alias/of0", 0), ("/alias/deeper/of0", 0), ("/alias2", 1)]
+            versions = [path_program(pkg, paths), path_program(pkg, paths, aliases=al1), path_program(pkg, paths, consts={0: 900}, aliases=al2), path_program(pkg, paths, consts={0: 900, 1: 901}, aliases=al2)]
+            descs = {(0, 1): {"kind": "add_alias", "site": ["T"]}, (1, 2): {"kind": "set_const+add_alias", "site": ["T"]}, (2, 3): {"kind": "set_const", "site": ["T"]}, (3, 0): {"kind": "revert", "site": ["T"]}}
+            hist = history_same_process([0, 1, 2, 3, 0], "reload") if store == "memory" or (k + pi) % 2 else history_restart([0, 1, 2, 3, 0])
+            cases.append(_case("pathtwins%d|%s" % (pi, store), versions, descs, hist, store))
     return cases
 
 
